@@ -13,6 +13,7 @@ FIXES = [
     ("D25", "c44c408", "C20", ["C20", "C19"]), ("D27", "02e0e1a", "C04", ["C04"]), ("D29", "f8623bd", "C08", ["C08"]),
     ("D26", "83c5ae9", "C06", ["C06"]), ("D28", "3228927", "C08", ["C08"]), ("D30", "ce45afe", "C02", ["C02", "C16"]), ("D31", "e6ee878", "C04", ["C04"]), ("D32", "dc7d07b", "C08", ["C08", "C20"]), ("D33", "6d23e96", "C08", ["C08"]), ("D34", "fa20f7a", "C19", ["C19"]), ("D35", "d457ac3", "C19", ["C19"]),
     ("D36", "2a1e787", "C17", ["C17"]), ("D37", "162df6d", "C20", ["C20"]), ("D19", "2e754e3", "C18", ["C18", "C13"]),
+    ("D39", "ce93d50", "C13", ["C13"]), ("D40", "f4e0af0:ce93d50", "C16", ["C16", "C02"]), ("D41", "f4e0af0", "C02", ["C02"]), ("D42", "a5d0f5e", "C14", ["C14"]),
 ]
 args = [a for a in sys.argv[1:] if not a.startswith("--")]
 slot = "7"
@@ -24,7 +25,9 @@ for (d, commit, prop, checks) in FIXES:
         continue
     dst = "/verif/seeded/revfix-%s" % d
     os.makedirs(dst, exist_ok=True)
-    diff = subprocess.run(["git", "-C", "/repo", "diff", commit, commit + "^", "--", ".", ":!*_test.go"], capture_output=True, text=True).stdout
+    frm, to = (commit.split(":") + [None])[:2] if ":" in commit else (commit, commit + "^")      # "A:B" = several fix commits at once
+    diff = subprocess.run(["git", "-C", "/repo", "diff", frm, to, "--", ".", ":!*_test.go"], capture_output=True, text=True).stdout
+    commit = frm
     open(os.path.join(dst, "patch.diff"), "w").write(diff)
     subject = subprocess.run(["git", "-C", "/repo", "log", "-1", "--format=%s", commit], capture_output=True, text=True).stdout.strip()
     p = subprocess.run([sys.executable, "/verif/tools/seedtest.py", os.path.join(dst, "patch.diff")] + checks + ["--slot", slot], capture_output=True, text=True, timeout=7200)
